@@ -46,9 +46,33 @@ def strip_comments(src: str) -> str:
     return "".join(out)
 
 
+def _module_path(mod: str) -> str:
+    return os.path.join(core.LEAN_DIR, *mod.split(".")) + ".lean"
+
+
+def import_closure(roots: list[str]) -> list[str]:
+    """files of the project reachable through `import` from the given modules"""
+    seen, todo = set(), list(roots)
+    while todo:
+        m = todo.pop()
+        path = _module_path(m)
+        if m in seen or not os.path.exists(path):
+            continue
+        seen.add(m)
+        for ln in open(path):
+            mm = re.match(r"\s*(?:public\s+)?import\s+([A-Za-z0-9_.]+)", ln)
+            if mm:
+                todo.append(mm.group(1))
+    return sorted(_module_path(m) for m in seen)
+
+
 def forbidden_tokens() -> list[str]:
+    """scan everything the registered theorems and the driver depend on (a colleague's unregistered work-in-progress
+    file is not part of any claim; a registered theorem depending on `sorry` is caught by `#print axioms` anyway)"""
     hits = []
-    for p in core._lean_sources():
+    reg = registry()
+    roots = ["Main"] + sorted({t["module"] for ent in reg.values() for t in ent.get("theorems", [])})
+    for p in import_closure(roots):
         if not p.endswith(".lean"):
             continue
         rel = os.path.relpath(p, core.LEAN_DIR)
